@@ -39,7 +39,11 @@ func runC09Concurrent(ctx *core.Ctx, out *core.Out) {
 	a, b := xport.NewPipe()
 	var clock int64
 	ep := &endpoint{tag: 1, nc: a, cfg: cs.Cfg, clock: &clock}
-	ep.c = newConn(a, cs.Cfg, &TrackPool{}, 0)
+	pool := &TrackPool{}
+	if cs.Cfg.Pool {
+		pool.PutDelay = func() { time.Sleep(400 * time.Microsecond) }
+	}
+	ep.c = newConn(a, cs.Cfg, pool, 0)
 	if cs.Path == cpReadLimit {
 		ep.c.SetReadLimit(5)
 	}
